@@ -298,7 +298,9 @@ def main():
                 for _ in range(per // 8):
                     runs.append(run(cfg4, random_schedule(cfg4, rng, rng.randint(10, 26))))
                 # the pipeline refuses a batch now and then
-                for cons in ("hold", "sync"):
+                # (only with a consumer the driver controls: behind a refused batch a synchronous consumer would complete the next
+                # batch of that partition at once, which is outside the proviso "batches of a partition complete in order")
+                for cons in ("hold",):
                     cfg3 = dict(cfg, cons=cons, faults=True)
                     for _ in range(per // 12):
                         runs.append(run(cfg3, random_schedule(cfg3, rng, rng.randint(8, 22))))
